@@ -47,16 +47,28 @@ def gen_system(rng, cat, n, thorough):
     elif cat == "parallel":
         A += [list(A[0]), [-v for v in A[0]]]
         b += [b[0] + 1, -b[0] + 2]
+    elif cat == "mixed-scale":
+        # rows of very different magnitude (the simplex backend misjudged such systems before rows were normalised)
+        k = rng.randrange(len(A))
+        s_ = rng.choice([FR(10**6), FR(10**7) * FR(11, 7), FR(10**8) / 3])
+        A[k] = [s_ * v for v in A[k]]
+        b[k] = s_ * b[k]
+        if rng.random() < 0.5:
+            A += box[:n]
+            b += [FR(20)] * n
     elif cat == "free-direction":
         # constraints that leave at least one coordinate completely free
         k = rng.randrange(n)
         A = [[(FR(0) if j == k else v) for j, v in enumerate(r)] for r in A]
         A = [r if any(r) else [FR(int(j != k or n == 1)) for j in range(n)] for r in A]
+    # the system the library sees is the f64 rounding of these numbers: referee exactly that system
+    A = [[FR(float(v)) for v in r] for r in A]
+    b = [FR(float(v)) for v in b]
     return A, b
 
 
 CATS = ["bounded", "bounded", "empty-margin", "empty-hair", "point", "lowerdim", "unbounded", "redundant", "zero-rows", "parallel",
-        "free-direction", "random"]
+        "free-direction", "mixed-scale", "random"]
 
 
 def make_cases(chk):
